@@ -251,13 +251,14 @@ def _explicit_chop(rs: Stream, n: int, lmin: float, plain: bool = False, allow_s
         kinds += [("start", 2), ("end", 2)]
     k = rs.weighted(kinds)
     out: Dict[str, Any] = {"count": n}
+    special = rs.chance(0.15)  # values a person would type: exactly 1, 2, 0.5; a size that divides the edge evenly
     if k == "c2c":
-        out["c2c_expansion"] = round(rs.uniform(0.8, 1.25), 4)
+        out["c2c_expansion"] = rs.pick([1.0, 1.2, 0.8, 1]) if special else round(rs.uniform(0.8, 1.25), 4)
     elif k == "total":
-        out["total_expansion"] = round(rs.uniform(0.3, 3.0), 4)
+        out["total_expansion"] = rs.pick([1.0, 2.0, 0.5, 1, 4]) if special else round(rs.uniform(0.3, 3.0), 4)
     elif k in ("start", "end"):
         u = rs.uniform(0.4, 0.9) if rs.chance(0.5) else rs.uniform(1.1, 1.6)
-        out[k + "_size"] = round(lmin / n * u, 6)
+        out[k + "_size"] = lmin / n if special else round(lmin / n * u, 6)
     if k != "plain" and allow_preserve and rs.chance(0.45):
         out["preserve"] = rs.pick(["start_size", "end_size"])
     return out
